@@ -73,10 +73,9 @@ ASSUMPTIONS = [
     '(MemoryKeyStorage keys on Name.to_bytes, injective on well-formed names: C09_wire_roundtrip)',
     'the retrievable-certificate world is fixed during a history',
     'caller memory: a buffer is rewritten only after the call it was handed to has returned (constructor) / answered (validation), '
-    'never while a validation that was given views into it is in flight; a Data delivered by the face is handed over for good '
-    '(the library\'s stream and UDP faces deliver a fresh immutable bytes object per packet; express_interest returns views into '
-    'it and MemoryKeyStorage keeps such a view): delivered wires are given in every form but not rewritten '
-    '(RECEIVE_BUFFER_REUSED = False, docs/C14.md)',
+    'never while a validation that was given views into it is in flight; the wires the face delivered are given in every form and '
+    'are overwritten once the top-level validation that fetched them has answered (a face receiving into a reusable buffer; '
+    'RECEIVE_BUFFER_REUSED, judged since the library fix a338b22: MemoryKeyStorage used to keep a view of the delivered wire)',
     'overlapping validations: answers reach the application only through the harness events deliver / expire, the loop is run to '
     'quiescence between two events (virtual clock), so the event list is the linearisation; NDNApp wakes the validations that wait '
     'for one name in the order in which their Interests were expressed (model: CDeliver; cross-checked by comparing the outstanding '
@@ -482,11 +481,10 @@ FORMS_MUTABLE = ['bytearray', 'mv-bytearray', 'mv-window']
 FORMS_IMMUTABLE = ['bytes', 'mv-bytes']
 FORMS = FORMS_MUTABLE + FORMS_IMMUTABLE
 WINDOW_CAP, WINDOW_OFF = 1536, 24
-# A Data delivered by the face is handed over for good: the library's own faces give a fresh bytes object per
-# packet and express_interest returns views into it (so does every application that keeps `content`).  The family
-# still delivers it in every FORM; set True to let the face overwrite the delivered wires once the top-level
-# validation has answered (docs/C14.md, "receive buffer reused": MemoryKeyStorage keeps a view of the content).
-RECEIVE_BUFFER_REUSED = False
+# The face overwrites the wires it delivered once the top-level validation has answered (a face that receives into a
+# reusable buffer).  The library's own faces give a fresh bytes object per packet; MemoryKeyStorage used to keep a view
+# of the delivered certificate (docs/C14.md, "receive buffer reused"), repaired by fix: a338b22 -- judged since.
+RECEIVE_BUFFER_REUSED = True
 
 
 class CallerMemory:
